@@ -374,9 +374,12 @@ package transport
 
 // ---------------------------------------------------------------- multipart/mixed
 //@ trusted (net/http.Flusher).Flush()
+//@   nopanic
 //@   modifies nothing
+// (allocates the aggregator and starts its ticker goroutine; the ticker interval was clamped to >= 1ms by Do)
 //@ trusted newMultipartResponseAggregator(w, boundary, d) (a)
 //@   ensures a != nil
+//@   nopanic
 // Done is verified, not trusted: it stops the ticker goroutine and flushes what is still pending - the flush that
 // writes the last payload and, with it, the closing boundary (C12) - to the writer it was given, exactly once
 //@ func (*multipartResponseAggregator).Done [C12,C13,C05]
@@ -404,6 +407,9 @@ package transport
 //@   loop 1: invariant unsent == 0
 //@   loop 1: invariant initialResponse == (added == 0)
 //@   loop 1: invariant added >= 0
+// and once the aggregator exists, every exit - a panic of the executor included - goes through its Done (the flush
+// that ends the body with the closing boundary)
+//@   onexit calls(newMultipartResponseAggregator) >= 1 ==> calls(Done) == 1
 //@   ghost drained = false
 //@   at `nextResponse(...` ghost drained = callres0 == nil
 //@   ensures @C05 calls(DispatchOperation) >= 1 ==> drained
